@@ -66,11 +66,12 @@ def sortStrings (l : List String) : List String := l.foldr insertSorted []
 
 def renderLive (mem : Bool) (cfg : Cfg) (st : St) : String :=
   if mem then "?" else
-  let items : List String := match cfg.backend with
-    | .storage => (st.store.filter fun e => st.now < e.2).map fun e => s!"{toHex e.1}@{e.2}"
-    | _ => st.sess.map fun e => match e.2 with
-      | some t => s!"{toHex e.1}/{toHex t.key}@{t.exp}"
-      | none => s!"{toHex e.1}/none@0"
+  let items : List String := (probe cfg st).map fun it =>
+    match cfg.backend, it.tok with
+    | .storage, some t => s!"{toHex t}@{it.deadline}"
+    | .storage, none => "none@0"
+    | _, some t => s!"{toHex it.sid}/{toHex t}@{it.deadline}"
+    | _, none => s!"{toHex it.sid}/none@0"
   if items.isEmpty then "-" else "+".intercalate (sortStrings items)
 
 def firedStr (r : Resp) : String :=
@@ -79,7 +80,7 @@ def firedStr (r : Resp) : String :=
 
 def renderResp (mem : Bool) (cfg : Cfg) (st : St) (r : Resp) : String :=
   s!"{if r.pass then 1 else 0},{r.status},{optTok r.ck},{match r.sc with | none => "none" | some v => toHex v}," ++
-  s!"{plusList r.gens},{plusList r.sgens},{firedStr r},{renderLive mem cfg st}"
+  s!"{plusList r.gens},{plusList r.sgens},{firedStr r},{if r.early then 1 else 0},{renderLive mem cfg st}"
 
 def runModel (mem : Bool) (cfg : Cfg) : St → List Op → List String
   | _, [] => []
@@ -111,11 +112,11 @@ def parsePlus (s : String) : Except String (List Bytes) :=
 
 def parseObs (s : String) : Except String Obs := do
   match s.splitOn "," with
-  | [p, st, ck, sc, g, sg, fr, lv] =>
+  | [p, st, ck, sc, g, sg, fr, ea, lv] =>
     let ckv ← (if ck == "none" then pure none else if ck == "exp" then pure (some []) else do pure (some (← hx ck)))
     let scv ← (if sc == "none" then pure none else do pure (some (← hx sc)))
     pure { pass := p == "1", status := st.toNat?.getD 0, ck := ckv, sc := scv, gens := ← parsePlus g,
-           sgens := ← parsePlus sg, fired := fr != "-", live := ← parseLive lv }
+           sgens := ← parsePlus sg, fired := fr != "-", early := ea == "1", live := ← parseLive lv }
   | _ => throw "bad observation"
 
 def extOf : String → Option Ext
@@ -152,7 +153,12 @@ def handleCase (f : List String) : Except String Verdict := do
         else do
           let obsl ← (if impl == "-" then pure [] else (impl.splitOn ";").mapM fun s =>
             if s == "-" then pure none else if s == "panic" then pure (some panicObs) else (parseObs s).map some)
-          if obsl.length != opl.length then pure (some "observation-count", [])
+          -- assumption of the theorems on the URL-parser parameter: a scheme never contains ':'
+          let badUrl := opl.any fun o => match o with
+            | .req q => q.ourl.scheme.contains 58 || q.rurl.scheme.contains 58
+            | _ => false
+          if badUrl then pure (some "assumption-url-scheme-without-colon", [])
+          else if obsl.length != opl.length then pure (some "observation-count", [])
           else pure (specRun (specConfig backend ext (single == "1") idle raw) specInit opl obsl, specTags cfg opl obsl)
       pure { id := id, modelObs := modelObs, implObs := impl, spec := spec, tags := [be, toString (repr ext)] ++ tags }
   | _ => throw s!"outside-domain: expected 8 fields, got {f.length}"
